@@ -181,9 +181,15 @@ def scan_foreign(mods, infos):
     """Refuse reflective identifiers anywhere, and any attribute store to a
     slot name / setattr outside the bodies of the four classes."""
     allslots = set()
+    allnames = set()
+    problems = []
     for ci in infos.values():
         allslots.update(ci.slots)
-    problems = []
+        allnames.update(ci.methods)
+        allnames.update(ci.props)
+        for sl in ci.slots:
+            if not sl.startswith("_") or sl.startswith("__"):
+                problems.append("class %s: slot name %s" % (ci.name, sl))
     for fname, tree in mods:
         own = set()
         if fname == "data.py":
@@ -210,6 +216,17 @@ def scan_foreign(mods, infos):
                                 % (fname, n.lineno, n.attr))
             if isinstance(n, ast.Name) and n.id == "setattr":
                 problems.append("%s:%d setattr outside the four classes" % (fname, n.lineno))
+            if isinstance(n, ast.Attribute) and isinstance(n.ctx, (ast.Store, ast.Del)) and (
+                    (isinstance(n.value, ast.Name) and n.value.id in CLASSES) or
+                    (isinstance(n.value, ast.Attribute) and n.value.attr in CLASSES)):
+                problems.append("%s:%d assigns attribute %s of one of the four classes"
+                                % (fname, n.lineno, n.attr))
+            if isinstance(n, ast.ClassDef) and any(
+                    isinstance(x, (ast.Name, ast.Attribute)) and
+                    (x.id if isinstance(x, ast.Name) else x.attr) in CLASSES
+                    for b in n.bases for x in ast.walk(b)):
+                problems.append("%s:%d class %s derives from one of the four classes"
+                                % (fname, n.lineno, n.name))
             if isinstance(n, ast.Assign):
                 for t in n.targets:
                     if isinstance(t, ast.Name) and t.id == "__slots__":
@@ -409,6 +426,14 @@ class MethodTr:
             if isinstance(s.value, ast.Yield):
                 v = self.expr(s.value.value, out) if s.value.value is not None else self.P
                 out.append(("if", [("ret", v)], []))
+                # the generator is suspended here and the client goes on with
+                # other operations: whatever the locals hold is, from now on,
+                # a pre-existing value (never again "fresh")
+                for n in sorted(self.cur):
+                    if self.cur[n] not in (0, self.P, self.G):
+                        a = self.new()
+                        out.append(("any", a))
+                        self.bind(n, a, out)
             elif isinstance(s.value, ast.Constant):
                 pass
             else:
@@ -748,17 +773,20 @@ class MethodTr:
                     self.expr(extra, out)
                 if isinstance(nm, ast.Constant) and isinstance(nm.value, str):
                     if nm.value in self.ctx.method_names and nm.value not in self.ctx.prop_names:
-                        # a bound method fetched by name: only accepted when it is
-                        # not called through (the result is treated as opaque `any`)
-                        t = self.new()
-                        out.append(("any", t))
-                        return t
+                        self.rej(e, "method %s fetched with getattr" % nm.value)
                     return self.load_attr(b, nm.value, out)
                 self.expr(nm, out)
                 if b == self.P:
                     return self.P
                 # unknown attribute name: a slot, or any (public) property
                 return self.ext(out)
+            if f.id == "callable" and len(e.args) == 1 and not e.keywords and \
+                    isinstance(e.args[0], ast.Call) and isinstance(e.args[0].func, ast.Name) and \
+                    e.args[0].func.id == "getattr" and len(e.args[0].args) in (2, 3) and \
+                    isinstance(e.args[0].args[1], ast.Constant):
+                # callable(getattr(x, "name", default)): the attribute is only tested
+                self.expr(e.args[0].args[0], out)
+                return self.P
             if f.id in ("isinstance", "callable", "type", "id", "issubclass"):
                 self.call_args(e, out)
                 return self.P
@@ -769,6 +797,17 @@ class MethodTr:
             # through the public protocol of the values it receives
             self.call_args(e, out)
             return self.ext(out)
+        if isinstance(f, ast.Attribute) and isinstance(f.value, ast.Name) and \
+                f.value.id in CLASSES and f.value.id not in self.cur:
+            # C.m(x, ...): the receiver is the first argument
+            m = f.attr
+            if m not in self.ctx.method_names or not e.args or isinstance(e.args[0], ast.Starred):
+                self.rej(e, "class-qualified call " + ast.unparse(f))
+            recv = self.expr(e.args[0], out)
+            self.call_args(e, out)
+            t = self.new()
+            out.append(("call", t, m, recv))
+            return t
         if isinstance(f, ast.Attribute):
             m = f.attr
             recv = self.expr(f.value, out)
@@ -788,6 +827,8 @@ class MethodTr:
                 return t
             return self.ext(out)
         # callee is a computed value (e.g. a table of operators)
+        if not isinstance(f, (ast.Subscript, ast.Name)):
+            self.rej(e, "call of a computed callee " + type(f).__name__)
         self.expr(f, out)
         self.call_args(e, out)
         return self.ext(out)
